@@ -32,8 +32,11 @@ def post_of(c, enc):
     return normals, conds
 
 
-def compare_post(c, mv, k0, enc, where):
+def compare_post(c, mv, k0, enc, where, ref=None):
+    """ref: encoded normals (blocks) of a neighbouring state: the size of the space the backward models map into"""
     N, cc, nb = gen.shape_dims(c["kind"], c["q"], c["d"])
+    # backward gains over a fraction of a step have entries ~(1/h)^q (1e9..1e10 for q = 5): conditioning grows with q
+    rt_bw = 2e-6 * (4.0 ** max(0, c["q"] - 3))
     normals, conds = post_of(c, enc)
     mm, k = gen.split_normals(mv[k0:], N, cc, nb)
     k += k0
@@ -44,7 +47,8 @@ def compare_post(c, mv, k0, enc, where):
     if c["strat"] != "filter":
         mc, k = traj.split_conds(mv, N, cc, nb, k)
         for a in range(nb):
-            mism, _w = gen.compare_cond_plain(conds[a], mc[a], 2e-6, where=f"{where} backward model block {a}")
+            mism, _w = gen.compare_cond_plain(conds[a], mc[a], rt_bw, where=f"{where} backward model block {a}",
+                                             marg=(traj.impl_normal(ref[a]) if ref is not None else normals[a]))
             if mism:
                 return mism, k
     return None, k
@@ -108,7 +112,7 @@ def interp_refinement(ck, n, pid="C05", calibs=None, book_only=False):
         pos = 0
         bad = False
         for name in ("interpolated", "step_from", "interp_from"):
-            mism, pos = compare_post(c, mv, pos, ip[name], f"interpolate_fwd(t={float(t)}) {name}")
+            mism, pos = compare_post(c, mv, pos, ip[name], f"interpolate_fwd(t={float(t)}) {name}", ref=ires[i]["states"][k]["u"])
             if mism and not book_only:
                 ck.report(f"{pid}.{c['kind']}.{c['strat']}.interp.{name}", f"{c['kind']}/{c['strat']}/{c['calib']}: {mism}",
                           {"case": gen.jsonable(c), "mismatch": mism, "k": k, "t": str(t)})
@@ -338,6 +342,11 @@ def subset_check(ck, n):
                 ck.report(f"C05.{c['kind']}.exception", f"implementation raised {r['error']}", {"case": jc})
                 break
         else:
+            if c["calib"].startswith("dyn") and any((not (abs(x) >= 1e-9)) for r in (ra, rb, rt) for row in r["output_scale"] for x in row):
+                # degenerate dynamic scale in some block (exactly/numerically zero local residual): covariances of that block are rounding
+                # noise and so are the smoothed means that depend on them (same exclusion as in the other streams)
+                ck.hist.setdefault("subset_degenerate_dynamic_scale_skipped", {"n": 0})["n"] += 1
+                continue
             N, cc, nb = gen.shape_dims(c["kind"], c["q"], c["d"])
             na, _ = gen.split_normals(ra["out"], N, cc, len(A) * nb)
             nbb, _ = gen.split_normals(rb["out"], N, cc, len(B) * nb)
@@ -348,9 +357,12 @@ def subset_check(ck, n):
                     (ma, ca_), (mb, cb_) = na[j * nb + a], nbb[jb * nb + a]
                     sd = [math.sqrt(max(ca_[i][i], 0.0)) for i in range(N)]
                     smax = max(sd + [1e-300])
+                    # a coefficient that is (numerically) zero next to coefficients of size mag carries rounding noise ~1e-8 mag of the
+                    # two different interpolation histories
+                    mag = max([abs(x) for row in ma for x in row] + [0.0])
                     for i2 in range(N):
                         for a2 in range(len(ma[i2])):
-                            if abs(ma[i2][a2] - mb[i2][a2]) > 1e-5 * (abs(ma[i2][a2]) + max(sd[i2], 1e-7 * smax)) + 1e-13:
+                            if abs(ma[i2][a2] - mb[i2][a2]) > 1e-5 * (abs(ma[i2][a2]) + max(sd[i2], 1e-7 * smax)) + 1e-7 * mag + 1e-13:
                                 problem = problem or f"mean at t={float(t)} [{i2}][{a2}]: {ma[i2][a2]!r} (subset) vs {mb[i2][a2]!r} (superset)"
                         for j2 in range(N):
                             if abs(ca_[i2][j2] - cb_[i2][j2]) > 1e-4 * max(sd[i2], 1e-7 * smax) * max(sd[j2], 1e-7 * smax) + 1e-300:
